@@ -90,9 +90,11 @@ def rule_c(repo, chk):
     ok = vals == sorted(['None', 'parent_names + (self.tree_name.value,)'])
     chk.ob('C18.c', ok, tn, 'a tree name: the parent context\'s names + the token text', str(vals))
     gq = repo.find('jedi.inference.names', 'AbstractNameDefinition.get_qualified_names')
-    txt = norm(gq)
-    ok = 'module_names = self.get_root_context().string_names' in txt and 'return module_names + qualified_names' in txt and \
-        txt.count('return None') >= 1 and 'if qualified_names is None or not include_module_names' in txt
+    pre = [r for r in stmts_in(gq, ast.Return) if norm(r.value) == 'module_names + qualified_names']
+    ok = len(pre) == 1 and any(norm(a) == 'module_names = self.get_root_context().string_names' for a in stmts_in(gq, ast.Assign))
+    if ok:
+        ok = gate(gq, pre[0], lambda e, pol: pol and norm(e) == 'include_module_names') is None and \
+            gate(gq, pre[0], none_accept('qualified_names')) is None and gate(gq, pre[0], none_accept('module_names')) is None
     chk.ob('C18.c', ok, gq, 'with include_module_names the module\'s string_names are prepended; None parts propagate')
     fn = repo.find('jedi.api.classes', 'BaseName.full_name')
     c = cfg_of(fn)
@@ -102,8 +104,12 @@ def rule_c(repo, chk):
     chk.ob('C18.c', ok, fn, 'full_name joins the qualified names with dots', str([norm(r.value) for r in rets]))
     maps = [x for x in own_nodes(fn) if isinstance(x, ast.Subscript) and norm(x.value) == 'self._mapping'] + \
         [x for x in own_nodes(fn) if isinstance(x, ast.Call) and norm(x.func) == 'self._mapping.get']
-    ok = len(maps) == 1 and isinstance(maps[0], ast.Subscript) and norm(maps[0].slice) == 'names[0]' and \
-        isinstance(getattr(maps[0], '_parent', None), ast.Assign) and norm(maps[0]._parent.targets[0]) == 'names[0]'
+    ok = False
+    if len(maps) == 1 and isinstance(getattr(maps[0], '_parent', None), ast.Assign) and norm(maps[0]._parent.targets[0]) == 'names[0]':
+        if isinstance(maps[0], ast.Subscript):
+            ok = norm(maps[0].slice) == 'names[0]'
+        else:       # self._mapping.get(names[0], names[0]): unknown modules keep their name
+            ok = [norm(a) for a in maps[0].args] == ['names[0]', 'names[0]']
     chk.ob('C18.c', ok, fn, 'the stdlib pretty-name mapping is applied to the first (module) component only: names[0] = self._mapping[names[0]]',
            str([short(repo.enclosing_stmt(x)) for x in maps]))
     for r in join:
@@ -121,8 +127,11 @@ def rule_d(repo, chk):
     tests = if_test_texts(f)
     ok = "leaf.start_pos > pos or leaf.type == 'endmarker'" in tests
     chk.ob('C18.d', ok, f, 'the previous leaf is taken when the cursor is in a prefix OR on the end marker (an indented empty last line belongs to its block)', str(tests))
-    ok = 'n is not None and n.start_pos < pos <= n.children[-1].start_pos' in tests
-    chk.ob('C18.d', ok, f, 'header special case: between the start of a def/class and its suite the context is the definition\'s own context')
+    own_ctx = [c for c in calls_in(f, 'create_value')]
+    ok = len(own_ctx) == 1 and gate(f, own_ctx[0], lambda e, pol: pol and norm(e) == 'n.start_pos < pos <= n.children[-1].start_pos') is None and \
+        gate(f, own_ctx[0], none_accept('n')) is None
+    chk.ob('C18.d', ok, f, 'header special case: between the start of a def/class and its suite (n.start_pos < pos <= n.children[-1].start_pos, n not None) '
+                           'the context is the definition\'s own context')
     sa = [c for c in calls_in(f, 'search_ancestor')]
     ok = len(sa) == 1 and {a.value for a in sa[0].args if isinstance(a, ast.Constant)} == {'funcdef', 'classdef'}
     chk.ob('C18.d', ok, f, 'the enclosing definition is the nearest funcdef/classdef of the leaf')
